@@ -44,11 +44,11 @@ CHECKS = {
     "C17": ("exploration", "vf-stark",
             "property-based testing (proptest): differential against an executable definition of the composition polynomial at generated points",
             "Generated-input search: for GenAir instances (periodic columns of several cycle lengths, sequence assertions on both sides of the representation switch, non-zero first steps, exemptions > 1, aux segment with and without a Lagrange kernel column, extensions, ce-blowup < lde-blowup) the value sum x^(i n) H_i(x) of the polynomial the prover would commit to (DefaultTraceLde -> DefaultConstraintEvaluator -> CompositionPoly, public API) is compared at 4 generated extension-field points with the definition computed over integer residues (trace polynomials by naive inverse DFT, rules on (T(x), T(gx)), periodic polynomials by Lagrange interpolation at x^(n/cycle), quotients by model zero sets, assertion polynomials by Lagrange interpolation); the verifier-side evaluation assembled from the air crate's public building blocks on the reference frame must give the same value.",
-            "The Lagrange kernel column's constraints are part of the definition. Agreement at 4 random points of a field of >= 2^62 elements is taken as polynomial identity (error < 2^-40). Composition coefficients are chosen by the harness (boundary coefficients all equal, or distinct with the assignment read through public accessors).",
+            "The Lagrange kernel column's constraints are part of the definition; the proof of each compared instance must also be accepted by verify(), which brings the verifier's crate-private evaluator under the check. Agreement at 4 random points of a field of >= 2^62 elements is taken as polynomial identity (error < 2^-40). Composition coefficients are chosen by the harness (boundary coefficients all equal, or distinct with the assignment read through public accessors).",
             "DESIGN.md 3/C17"),
     "C16": ("exploration", "vf-air",
             "exhaustive enumeration (run.enumerate) + property-based testing (proptest) against an independent step-set model",
-            "Exhaustive enumeration against a step-set model: every (n in {8..256}, k = 1..n/2+1) transition divisor and every valid assertion (kind x column in {0,1} x first step x stride x #values) on all three base fields is evaluated on every trace-domain point (plus n+2 off-domain points for the transition divisor); overlaps_with is compared with step-set intersection for all ordered pairs at every n; BoundaryConstraints::new is driven with all ordered pairs for n <= 128 (quick) / n <= 256 (thorough) plus generated pairs; hand-enumerated ill-formed assertions must be refused. exhaustive:true is reported per sub-space actually completed; pairs/sampled is a sample.",
+            "Exhaustive enumeration against a step-set model: every (n in {8..256}, k = 1..n/2+1) transition divisor and every valid assertion (kind x column in {0,1} x first step x stride x #values; sequence value lists unrelated, all equal, equal in pairs, alternating, all but the last equal) on all three base fields is evaluated on every trace-domain point (plus n+2 off-domain points for the transition divisor); overlaps_with is compared with step-set intersection for all ordered pairs at every n; BoundaryConstraints::new is driven with all ordered pairs for n <= 128 (quick) / n <= 256 (thorough) plus generated pairs; hand-enumerated ill-formed assertions must be refused. exhaustive:true is reported per sub-space actually completed; pairs/sampled is a sample.",
             "Domain points come from the harness' integer field using the integer value of the published TWO_ADIC_ROOT_OF_UNITY (order established by C07). Non-vanishing of the transition divisor on exempt points is concluded from identity with the model product at n+2 points with non-zero denominator. Width fixed at 2 columns; base fields only.",
             "DESIGN.md 3/C16"),
     "C18": ("exploration", "vf-air",
@@ -63,23 +63,23 @@ CHECKS = {
             "DESIGN.md 3/C03"),
     "C06": ("fault_enumeration", "vf-stark",
             "property-based testing / fuzzing-style mutation (proptest + exhaustive enumeration) with panic capture, measuring allocator, fatal-signal containment and watchdog",
-            "Fault enumeration over hostile inputs: for a basket of small honest proofs truncation at every offset, every byte replaced by 0x00/0x01/0x7f/0x80/0xff, every length/count/size/scalar field set to 0/1/max-1/max/+-1/*2 (exhaustive; thorough adds every bit flip); chains of 1..3 structure-aware mutations of generated proofs over all 12 field/hasher pairs; proofs spliced from the components of two different proofs; raw byte strings with and without a valid context prefix. Parse and verify (against the proof's own and against another statement) must return Ok/Err: any panic (overflow checks on), any single allocation above max(16 MiB, 4096 x input), any fatal signal, absurd allocation request or non-termination is a violation with the input as replay file.",
-            "The harness' own Air is total (falls back to a fixed AIR when the proof's trace shape does not match the statement), so panics are the library's. Two open known findings: assertions of AirContext reached through the infallible Air::new with untrusted options (API-level, see known_findings.json). Out-of-bounds reads inside unsafe code that do not crash are not observable here (no sanitizer in this tier).",
+            "Fault enumeration over hostile inputs: for a basket of small honest proofs truncation at every offset, every byte replaced by 0x00/0x01/0x7f/0x80/0xff, every length/count/size/scalar field set to 0/1/max-1/max/+-1/*2 (exhaustive; thorough adds every bit flip); chains of 1..3 structure-aware mutations of generated proofs over all 12 field/hasher pairs; proofs spliced from the components of two different proofs; raw byte strings with and without a valid context prefix. Parse (Proof::from_bytes and Proof::read_from over the streaming ReadAdapter) and verify (against the proof's own and against another statement, under every kind of acceptance policy: minimal conjectured / proven security, an option set, the empty set) must return Ok/Err: any panic (overflow checks on), any single allocation above max(16 MiB, 4096 x input), any fatal signal, absurd allocation request or non-termination is a violation with the input as replay file.",
+            "The harness' own Air is total (falls back to a fixed AIR when the proof's trace shape does not match the statement), so panics are the library's. Two open known findings: assertions of AirContext reached through the infallible Air::new with untrusted options (API-level, see known_findings.json). Out-of-bounds reads inside unsafe code that do not crash are observable in the libFuzzer stage only (ASan).",
             "DESIGN.md 3/C06"),
     "C05": ("fault_enumeration", "vf-fri",
             "property-based adversarial testing (proptest) with adaptive provers (AdvFri) and an exact legitimacy oracle",
             "Fault enumeration: 13 adversary strategies in 6 families (honest folding of random / too-high-degree / partially corrupted functions, over-long remainder, switching to another function at some layer, values opened from another chain or solved after the queries so that only one Merkle check can notice, folding with a wrong challenge incl. crafted instances only that one consistency check can notice, omitted / duplicated / swapped layers, remainder interpolated after the queries with and without sending its commitment, rows solved after the queries under a partition count above the number of rows) played by an independent FRI prover that writes FriProof wire bytes itself against the real FriVerifier/DefaultVerifierChannel, over folding 2/4/8/16, all remainder sizes, blowups, 1..255 queries, base and extension fields, six hashers. Acceptance is allowed only when an exact ground-truth verdict computed from the actual query positions shows that nothing visible was wrong.",
-            "Panics on omitted/duplicated layers are labelled, not judged (C06's subject). Degree bounds other than 2^k-1 are not explored; more than one partition only in the hostile form named above. Collision resistance assumed.",
+            "Panics on omitted/duplicated layers are labelled, not judged (C06's subject). Claimed degree bounds that are not of the form 2^k-1 are explored by the sub-check reduced-bound only (polynomials of degree between the claimed bound and the schedule's 2^k-1 proven honestly must be refused); more than one partition only in the hostile form named above. Collision resistance assumed.",
             "DESIGN.md 3/C05"),
     "C15": ("exploration", "vf-fri",
             "property-based testing (proptest) with an independent coefficient-domain reference model (vf-ref) and a differential byte-level prover (AdvFri honest)",
-            "Generated-input search: honest FriProver/FriVerifier over 33 element-type x hasher combinations and schedules well-formed by construction (one prover instance reused for 2-3 proofs, direct and after FriProof bytes round trip, duplicate and post-folding-colliding positions drawn and forced, up to 255 queries, domains up to 2^12 quick / 2^14 thorough); the folding identity apply_drp::<2|4|8|16> against reference interpolation and interleaved coefficient slices over integer residues (n <= 256); fold_positions / map_positions_to_indexes against their models; FriOptions::num_fri_layers exhaustively against a closed formula; AdvFri(honest) byte-identical to FriProver.",
+            "Generated-input search: honest FriProver/FriVerifier over 33 element-type x hasher combinations and schedules well-formed by construction (one prover instance reused for 2-3 proofs, direct and after FriProof bytes round trip, duplicate and post-folding-colliding positions drawn and forced, exactly 255 distinct openings of the first layer forced, up to 255 queries, domains up to 2^12 quick / 2^14 thorough); the folding identity apply_drp::<2|4|8|16> against reference interpolation and interleaved coefficient slices over integer residues (n <= 256); fold_positions / map_positions_to_indexes against their models; FriOptions::num_fri_layers exhaustively against a closed formula; AdvFri(honest) byte-identical to FriProver.",
             "exhaustive:true only for num-layers; folding identity bounded to n <= 256; degree bound 1 exercised by a dedicated sub-check.",
             "DESIGN.md 3/C15"),
     "C12": ("exploration", "vf-serde",
             "property-based testing (proptest) with constructor-accepted boundary members weighted, plus exhaustive enumeration of the ProofOptions space",
             "Generated-input search: round trip (value equal, no byte left, exactly the appended foreign bytes left) of 50 primitive/container types, 8 field element types, 5 digest types, FieldExtension, ProofOptions (whole constructor space enumerated), TraceInfo, Context, Commitments, Queries, OodFrame, FriProof (dummy, FriProver-built, decoded from laid-out encodings), Proof (new_dummy and assembled from parts) through SliceReader, Cursor and ReadAdapter over 6 chunking classes, with boundary members (vint64 boundaries, 254/255 widths, 0/255 random elements, 65535-byte metadata, 2^31 LDE, 255 queries/layers/node vectors).",
-            "Proofs from a real prover run are covered by C01. Second-level parsers (Queries::parse, OodFrame::parse) are not asserted here. get_size_hint is documented as an estimate and is not asserted.",
+            "Proofs from a real prover run are covered by C01. Second-level decoding is asserted for query sets (Queries::parse with all six hashers over the elements' own field: nodes, hashed rows, values) and for prover-made FRI proofs (parse_layers, parse_remainder; two-point remainder domains included); OodFrame::parse is covered by C01/C04. get_size_hint is documented as an estimate and is not asserted.",
             "DESIGN.md 3/C12"),
     "C13": ("exploration", "vf-serde",
             "stateful / model-based property-based testing (proptest): operation sequences against SliceReader as the model",
@@ -93,7 +93,7 @@ CHECKS = {
             "DESIGN.md 3/C14"),
     "C10": ("exploration", "vf-crypto",
             "property-based testing: enumerated and proptest-sampled openings against a naive materialised Merkle tree; mutation (fault) enumeration of openings",
-            "Positive direction exhaustive (quick: 3 hashers at depth 1..4 and 3 at depth 1..3; thorough: all 6 at depth 1..4): every non-empty position subset, sorted and shuffled orders, distinct and all-equal leaves: prove/verify, prove_batch/verify_batch, get_root = naive root, into_paths = naive paths, from_paths(into_paths) = prove_batch. Depth 5..12 sampled with subset sizes 1..255 (adjacent runs, sibling pairs, all-left, one per subtree, uniform). Negative direction: fault enumeration of 25 batch and 14 single-path mutation kinds (leaf/node/position/depth values, dropped/added nodes, vectors and leaves, duplicate/out-of-range/huge positions, wrong depths incl. 0 and >= 64) at every place they apply, exhaustive for depth 1..3 (and depth 4 in thorough); Ok is accepted only when every claimed (position, leaf) is committed and the shape is unchanged; never a panic.",
+            "Positive direction exhaustive (quick: 3 hashers at depth 1..4 and 3 at depth 1..3; thorough: all 6 at depth 1..4): every non-empty position subset, sorted and shuffled orders, distinct and all-equal leaves: prove/verify, prove_batch/verify_batch, get_root = naive root, into_paths = naive paths, from_paths(into_paths) = prove_batch. Depth 5..12 sampled with subset sizes 1..255 (adjacent runs, sibling pairs, all-left, one per subtree, uniform); trees whose every third leaf is the all-zero digest; openings of never-materialised trees of depth up to 63 (a real subtree below a chain of sibling digests: paths verify, from_paths / verify_batch / get_root / into_paths agree). Negative direction: fault enumeration of 25 batch and 14 single-path mutation kinds (leaf/node/position/depth values, dropped/added nodes, vectors and leaves, duplicate/out-of-range/huge positions, wrong depths incl. 0 and >= 64) at every place they apply, exhaustive for depth 1..3 (and depth 4 in thorough); Ok is accepted only when every claimed (position, leaf) is committed and the shape is unchanged; never a panic.",
             "The hash functions are black boxes here (C11). Two open known findings (internal nodes accepted as leaves of a shallower tree: depth is not bound into the root; design-level).",
             "DESIGN.md 3/C10"),
     "C11": ("exploration", "vf-crypto",
